@@ -237,14 +237,19 @@ def name_arg(n):
     return tuple(n) if isinstance(n, list) else n
 
 
-def _peek(mm):
+def _peek(mm, dec=None):
     """A half-built map is read (a layout printed between two add() calls, an early elaboration): every query a
-    decoder or a user makes; what the finished hierarchy says and does must not depend on having been asked."""
+    decoder or a user makes; what the finished hierarchy says and does must not depend on having been asked.
+    Every other time the half-built decoder itself is elaborated as well (a lint pass, an RTLIL dump): its map stays
+    open, more windows follow, and the elaboration that counts comes later."""
     try:
         list(mm.windows()); list(mm.window_patterns()); list(mm.all_resources())
         mm.decode_address(0); mm.decode_address((1 << mm.addr_width) - 1)
     except Exception:
         pass
+    if dec is not None and len(list(mm.windows())) % 2 == 1:
+        from amaranth.hdl import Fragment
+        Fragment.get(dec, None)
 
 
 def build_csr(h, node):
@@ -353,7 +358,7 @@ def build_csr(h, node):
                 d.add(sb, name=name_arg(s["name"]), addr=s["addr"])
             except ValueError:
                 pass
-            _peek(d.bus.memory_map)
+            _peek(d.bus.memory_map, d)
         h.mods.append(d)
         h.kind[id(d.bus.memory_map)] = ("dec",)
         return d.bus
@@ -393,7 +398,7 @@ def build(spec):
             dec.add(sub, name=name_arg(s["name"]), addr=s["addr"], sparse=bool(s["sparse"]))
         except ValueError:
             continue
-        _peek(dec.bus.memory_map)
+        _peek(dec.bus.memory_map, dec)
         h.mods.append(comp)
         h.kind[id(sub.memory_map)] = info
         if info[0] == "sram":
